@@ -117,7 +117,14 @@ func mCheck(ast schema.ASTNode, n mNode) {
 	}
 }
 
+// mConcreteNotes: notes are taken from a fixed list (harnesses whose subject
+// runs host code - regular expressions - over the note).
+var mConcreteNotes bool
+
 func mNote(tag string) string {
+	if mConcreteNotes {
+		return []string{"", "note", "a  b: c."}[zzverif.IntRange(tag+"note", 0, 2)]
+	}
 	n := zzverif.IntRange(tag+"noteLen", 0, 2)
 	b := make([]byte, n)
 	for i := range b {
